@@ -461,7 +461,8 @@ func runC19(c *Ctx) {
 			d = p.Desc(st.Val)
 
 			// (a nil source stays nil: joins with the nil constant are fine)
-			if !p.LeavesMatch(st.Val, "call:slices.Clone(*param#0.spec.protobuf)") {
+			// (of the receiver's bytes, read directly or through a local copy of the spec struct)
+			if !p.LeavesMatch(st.Val, "call:slices.Clone(*param#0.spec.protobuf)", "call:slices.Clone(*var:*.protobuf)") {
 				ok = false
 			}
 		}
